@@ -1,10 +1,122 @@
 (* C09 — JWT verification accepts exactly validly signed, rule-conforming tokens.
-   Only statements + `exact`; proofs live in proofs/JwtProofs.v. *)
+   Only statements + `exact`; proofs live in proofs/JwtProofs.v, the
+   declarative rules (header_rule, typ_rule, payload_rule, options_rule,
+   validator_rule, nodot) in model/JwtSpec.v, the executable model in
+   model/Jwt.v and model/Base64url.v.
+
+   sig_valid (raw MAC / signature verification of one key) and json_parse
+   (structpb JSON parsing) are arbitrary functions: every theorem holds for
+   all of them.  Times: claims in seconds, clock and skew in nanoseconds. *)
 From Coq Require Import List NArith ZArith Bool.
-From Tink Require Import Bytes Base64url Jwt JwtProofs.
+From Tink Require Import Bytes Base64url Jwt JwtSpec JwtProofs.
 Import ListNotations.
 Open Scope N_scope.
 
+(* ---- the decision procedure accepts exactly the conjunction of rules ---- *)
+
+(* VerifyAndDecode / VerifyMACAndDecode returns the verified token r iff:
+   NewValidator accepts the options, the token is h.p.s with three dot-free
+   parts, s decodes to a non-empty signature valid for "h.p" under an ENABLED
+   key of the keyset whose header rule (exact alg, no crit, kid rule) holds,
+   h and p decode to JSON objects, typ is absent or a string, the registered
+   claims are well-typed, and the validator's typ / iss / aud / exp / nbf /
+   iat / skew rules hold; r is the typ header and the decoded payload. *)
+Theorem C09_verify_accepts_exactly_the_rule_conforming_tokens :
+  forall (sig_valid : N -> bytes -> bytes -> bool) (json_parse : bytes -> option fields)
+         (keys : list jkey) (o : vopts) (tok : bytes) (r : rawjwt),
+    verify sig_valid json_parse keys o tok = Some (VOk r) <->
+    exists v, options_rule o v /\
+    exists h p s sg hb pb hdr,
+      tok = h ++ dot :: p ++ dot :: s
+      /\ nodot h /\ nodot p /\ nodot s
+      /\ b64_decode s = Some sg /\ sg <> []
+      /\ b64_decode h = Some hb /\ json_parse hb = Some hdr
+      /\ b64_decode p = Some pb /\ json_parse pb = Some (r_payload r)
+      /\ (exists k, In k keys /\ kenabled k = true
+                    /\ sig_valid (kref k) sg (h ++ dot :: p) = true /\ header_rule k hdr)
+      /\ typ_rule hdr (r_typ r)
+      /\ payload_rule (r_payload r)
+      /\ validator_rule v (r_typ r) (r_payload r).
+Proof. exact verify_iff_accepts. Qed.
+Print Assumptions C09_verify_accepts_exactly_the_rule_conforming_tokens.
+
+(* the same for one full primitive (one key) *)
+Theorem C09_single_key_verify_spec :
+  forall sig_valid json_parse k v tok r,
+    verify_key sig_valid json_parse k v tok = VOk r <->
+    exists h p s sg hb pb hdr,
+      tok = h ++ dot :: p ++ dot :: s /\ nodot h /\ nodot p /\ nodot s
+      /\ b64_decode s = Some sg /\ sg <> []
+      /\ b64_decode h = Some hb /\ json_parse hb = Some hdr
+      /\ b64_decode p = Some pb /\ json_parse pb = Some (r_payload r)
+      /\ sig_valid (kref k) sg (h ++ dot :: p) = true /\ header_rule k hdr
+      /\ typ_rule hdr (r_typ r) /\ payload_rule (r_payload r)
+      /\ validator_rule v (r_typ r) (r_payload r).
+Proof. exact verify_key_spec. Qed.
+Print Assumptions C09_single_key_verify_spec.
+
+(* the keyset loop: accepted iff some enabled key accepts; which key does not
+   matter for the returned claims; disabled keys never matter *)
+Theorem C09_keyset_accepts_iff_some_enabled_key_accepts :
+  forall sig_valid json_parse keys v tok interesting r,
+    verify_loop sig_valid json_parse keys v tok interesting = VOk r <->
+    exists k, In k keys /\ kenabled k = true /\ verify_key sig_valid json_parse k v tok = VOk r.
+Proof. exact verify_loop_spec. Qed.
+Print Assumptions C09_keyset_accepts_iff_some_enabled_key_accepts.
+
+Theorem C09_claims_do_not_depend_on_the_accepting_key :
+  forall sig_valid json_parse k1 k2 v tok r1 r2,
+    verify_key sig_valid json_parse k1 v tok = VOk r1 ->
+    verify_key sig_valid json_parse k2 v tok = VOk r2 -> r1 = r2.
+Proof. exact verify_key_deterministic. Qed.
+Print Assumptions C09_claims_do_not_depend_on_the_accepting_key.
+
+Theorem C09_disabled_keys_never_matter :
+  forall sig_valid json_parse keys v tok r,
+    verify_loop sig_valid json_parse keys v tok false = VOk r <->
+    verify_loop sig_valid json_parse (filter kenabled keys) v tok false = VOk r.
+Proof. exact verify_loop_enabled_only. Qed.
+Print Assumptions C09_disabled_keys_never_matter.
+
+(* ---- the rules are decided exactly (reflection of each executable check) ---- *)
+
+Theorem C09_header_check_is_header_rule :
+  forall k hdr,
+    validate_header hdr (kalg k) (fst (kid_args (kkid k))) (snd (kid_args (kkid k))) = true
+    <-> (lookup s_alg hdr = Some (JStr (kalg k))
+         /\ lookup s_crit hdr = None
+         /\ match kkid k with
+            | KTink id => lookup s_kid hdr = Some (JStr (b64_encode (be_bytes 4 id)))
+            | KCustom c => lookup s_kid hdr = None \/ lookup s_kid hdr = Some (JStr c)
+            | KIgnored => True
+            end).
+Proof. exact validate_header_spec. Qed.
+Print Assumptions C09_header_check_is_header_rule.
+
+Theorem C09_payload_check_is_payload_rule :
+  forall pl, validate_payload pl = true <-> payload_rule pl.
+Proof. exact validate_payload_spec. Qed.
+Print Assumptions C09_payload_check_is_payload_rule.
+
+Theorem C09_validator_check_is_validator_rule :
+  forall v typ pl, payload_rule pl ->
+    (validate v (mkRaw typ pl) = true <-> validator_rule v typ pl).
+Proof. exact validate_spec. Qed.
+Print Assumptions C09_validator_check_is_validator_rule.
+
+(* NewValidator: refuses ExpectedAudiences together with ExpectedAudience,
+   Expected* together with Ignore*, and a clock skew above 10 minutes *)
+Theorem C09_new_validator_option_rules :
+  forall o v, new_validator o = Some v <-> options_rule o v.
+Proof. exact new_validator_spec. Qed.
+Print Assumptions C09_new_validator_option_rules.
+
+Theorem C09_clock_skew_above_10_minutes_refused :
+  forall o, (o_skew o > 600000000000)%Z -> new_validator o = None.
+Proof. exact skew_limit. Qed.
+Print Assumptions C09_clock_skew_above_10_minutes_refused.
+
+(* validateFieldPresence: the whole truth table *)
 Theorem C09_field_presence_truth_table :
   forall ignore present expected,
     field_presence ignore present expected =
@@ -16,3 +128,205 @@ Theorem C09_field_presence_truth_table :
          end.
 Proof. exact field_presence_table. Qed.
 Print Assumptions C09_field_presence_truth_table.
+
+(* ---- boundaries ---- *)
+
+(* exp = now - skew is rejected, one nanosecond (or one second) later is accepted *)
+Theorem C09_exp_boundary :
+  forall v pl t r, lookup s_exp pl = Some (JNum t r) ->
+    (ns t = o_now v - o_skew v -> exp_ok v pl = false)%Z
+    /\ (ns t = o_now v - o_skew v + 1 -> exp_ok v pl = true)%Z.
+Proof. exact exp_boundary. Qed.
+Print Assumptions C09_exp_boundary.
+
+Theorem C09_exp_boundary_whole_seconds :
+  forall v pl t r n s,
+    lookup s_exp pl = Some (JNum t r) -> o_now v = ns n -> o_skew v = ns s ->
+    (t = n - s -> exp_ok v pl = false)%Z /\ (t = n - s + 1 -> exp_ok v pl = true)%Z.
+Proof. exact exp_boundary_seconds. Qed.
+Print Assumptions C09_exp_boundary_whole_seconds.
+
+(* nbf = now + skew is accepted, one later is rejected; likewise iat when
+   ExpectIssuedInThePast *)
+Theorem C09_nbf_boundary :
+  forall v pl t r, lookup s_nbf pl = Some (JNum t r) ->
+    (ns t = o_now v + o_skew v -> nbf_ok v pl = true)%Z
+    /\ (ns t = o_now v + o_skew v + 1 -> nbf_ok v pl = false)%Z.
+Proof. exact nbf_boundary. Qed.
+Print Assumptions C09_nbf_boundary.
+
+Theorem C09_nbf_boundary_whole_seconds :
+  forall v pl t r n s,
+    lookup s_nbf pl = Some (JNum t r) -> o_now v = ns n -> o_skew v = ns s ->
+    (t = n + s -> nbf_ok v pl = true)%Z /\ (t = n + s + 1 -> nbf_ok v pl = false)%Z.
+Proof. exact nbf_boundary_seconds. Qed.
+Print Assumptions C09_nbf_boundary_whole_seconds.
+
+Theorem C09_iat_boundary :
+  forall v pl t r, o_iat_past v = true -> lookup s_iat pl = Some (JNum t r) ->
+    (ns t = o_now v + o_skew v -> iat_ok v pl = true)%Z
+    /\ (ns t = o_now v + o_skew v + 1 -> iat_ok v pl = false)%Z.
+Proof. exact iat_boundary. Qed.
+Print Assumptions C09_iat_boundary.
+
+Theorem C09_iat_boundary_whole_seconds :
+  forall v pl t r n s,
+    o_iat_past v = true -> lookup s_iat pl = Some (JNum t r) -> o_now v = ns n -> o_skew v = ns s ->
+    (t = n + s -> iat_ok v pl = true)%Z /\ (t = n + s + 1 -> iat_ok v pl = false)%Z.
+Proof. exact iat_boundary_seconds. Qed.
+Print Assumptions C09_iat_boundary_whole_seconds.
+
+(* no keyset makes up for a failed time check *)
+Theorem C09_accepted_tokens_pass_every_time_check :
+  forall sig_valid json_parse keys o v tok r,
+    new_validator o = Some v ->
+    verify sig_valid json_parse keys o tok = Some (VOk r) ->
+    exp_ok v (r_payload r) = true /\ nbf_ok v (r_payload r) = true /\ iat_ok v (r_payload r) = true.
+Proof. exact time_check_rejects. Qed.
+Print Assumptions C09_accepted_tokens_pass_every_time_check.
+
+(* ---- base64url ---- *)
+
+Theorem C09_b64_decode_encode :
+  forall x, wfb x -> b64_decode (b64_encode x) = Some x.
+Proof. exact b64_decode_encode. Qed.
+Print Assumptions C09_b64_decode_encode.
+
+(* the exact accepted set: alphabet characters only (no padding, no
+   whitespace), length mod 4 <> 1; unused trailing bits are NOT checked *)
+Theorem C09_b64_decode_accepted_set :
+  forall s, b64_decode s <> None <->
+            Forall (fun c => b64_val c <> None) s /\ (length s mod 4 <> 1)%nat.
+Proof. exact b64_decode_accepts. Qed.
+Print Assumptions C09_b64_decode_accepted_set.
+
+Theorem C09_b64_noncanonical_trailing_bits_accepted :
+  b64_decode [81; 81] = Some [65] /\ b64_decode [81; 82] = Some [65] /\ b64_encode [65] = [81; 81].
+Proof. exact b64_noncanonical_accepted. Qed.
+Print Assumptions C09_b64_noncanonical_trailing_bits_accepted.
+
+Theorem C09_b64_encode_injective_and_dot_free :
+  forall x y, wfb x -> wfb y ->
+    (b64_encode x = b64_encode y -> x = y) /\ ~ In dot (b64_encode x).
+Proof. intros x y Wx Wy. split; [apply b64_encode_injective; assumption | apply b64_encode_nodot]. Qed.
+Print Assumptions C09_b64_encode_injective_and_dot_free.
+
+Theorem C09_b64_decoded_bytes_are_bytes :
+  forall s x, b64_decode s = Some x -> wfb x.
+Proof. exact b64_decode_wf. Qed.
+Print Assumptions C09_b64_decoded_bytes_are_bytes.
+
+(* ---- NewRawJWT, encoding and the round trip ---- *)
+
+(* every option of an accepted RawJWTOptions becomes exactly its claim, custom
+   claims are kept, nothing else appears, and the payload is rule-conforming *)
+Theorem C09_new_raw_jwt_claims :
+  forall o r, new_raw_jwt o = Some r ->
+    let cc := match ro_custom o with None => [] | Some c => c end in
+    let pl := r_payload r in
+    r_typ r = ro_typ o
+    /\ lookup s_iss pl = jstr (ro_iss o) /\ lookup s_sub pl = jstr (ro_sub o) /\ lookup s_jti pl = jstr (ro_jti o)
+    /\ lookup s_iat pl = jtime (ro_iat o) /\ lookup s_exp pl = jtime (ro_exp o) /\ lookup s_nbf pl = jtime (ro_nbf o)
+    /\ lookup s_aud pl = match ro_auds o with
+                         | Some l => Some (JArr (map JStr l))
+                         | None => jstr (ro_aud o)
+                         end
+    /\ (forall k v, NoDup (map fst cc) -> In (k, v) cc -> lookup k pl = Some v)
+    /\ (forall k, is_registered k = false -> ~ In k (map fst cc) -> lookup k pl = None)
+    /\ (is_some (ro_exp o) = negb (ro_noexp o))
+    /\ payload_rule pl.
+Proof. exact new_raw_jwt_claims. Qed.
+Print Assumptions C09_new_raw_jwt_claims.
+
+(* the produced header carries exactly the key's algorithm, the raw JWT's typ
+   and the kid the key's rule demands *)
+Theorem C09_encoded_header_satisfies_the_key :
+  forall k r hdr pl, encode_parts k r = Some (hdr, pl) ->
+    pl = r_payload r /\ header_rule k hdr /\ typ_rule hdr (r_typ r)
+    /\ json_utf8 (JObj hdr) = true /\ json_utf8 (JObj pl) = true.
+Proof. exact encode_header_rule. Qed.
+Print Assumptions C09_encoded_header_satisfies_the_key.
+
+(* SignAndEncode / ComputeMACAndEncode followed by verification under any
+   keyset that holds the key enabled and any validator the claims satisfy
+   returns exactly the raw JWT: for every JSON printer/parser pair and every
+   signer/verifier pair obeying the four laws below *)
+Theorem C09_encode_then_verify_round_trips :
+  forall (sig_valid : N -> bytes -> bytes -> bool) (json_parse : bytes -> option fields)
+         (json_print : fields -> bytes) (sign : N -> bytes -> bytes),
+    (forall f, json_utf8 (JObj f) = true -> json_parse (json_print f) = Some f) ->
+    (forall f, wfb (json_print f)) ->
+    (forall kr m, sig_valid kr (sign kr m) m = true) ->
+    (forall kr m, wfb (sign kr m)) ->
+    (forall kr m, sign kr m <> []) ->
+    forall keys k o v ro r tok,
+      new_raw_jwt ro = Some r ->
+      In k keys -> kenabled k = true ->
+      encode json_print sign k r = Some tok ->
+      new_validator o = Some v -> validate v r = true ->
+      verify sig_valid json_parse keys o tok = Some (VOk r).
+Proof. exact encode_verify_roundtrip. Qed.
+Print Assumptions C09_encode_then_verify_round_trips.
+
+(* the same with the laws required only of the header, payload and signed
+   text of the token at hand (used for the non-vacuity example below) *)
+Theorem C09_encode_then_verify_round_trips_local :
+  forall sig_valid json_parse json_print sign keys k o v ro r hdr pl tok,
+    new_raw_jwt ro = Some r ->
+    In k keys -> kenabled k = true ->
+    encode_parts k r = Some (hdr, pl) ->
+    encode json_print sign k r = Some tok ->
+    json_parse (json_print hdr) = Some hdr -> json_parse (json_print pl) = Some pl ->
+    wfb (json_print hdr) -> wfb (json_print pl) ->
+    (forall m, wfb (sign (kref k) m) /\ sign (kref k) m <> [] /\ sig_valid (kref k) (sign (kref k) m) m = true) ->
+    new_validator o = Some v -> validate v r = true ->
+    verify sig_valid json_parse keys o tok = Some (VOk r).
+Proof. exact encode_verify_roundtrip_local. Qed.
+Print Assumptions C09_encode_then_verify_round_trips_local.
+
+(* ---- JWK export / import ---- *)
+
+(* whatever the public keyset accepts, the keyset obtained by exporting it to
+   a JWK set and importing it back accepts, with the same claims *)
+Theorem C09_jwk_export_import_preserves_acceptance :
+  forall sig_valid json_parse keys o tok r,
+    verify sig_valid json_parse keys o tok = Some (VOk r) ->
+    verify sig_valid json_parse (jwk_roundtrip keys) o tok = Some (VOk r).
+Proof. exact jwk_roundtrip_preserves. Qed.
+Print Assumptions C09_jwk_export_import_preserves_acceptance.
+
+(* ---- non-vacuity: a concrete key, raw JWT, printer, signer and validator ---- *)
+Section Example.
+  Let k := mkKey 7 true [72; 83; 50; 53; 54] (KTink 16909060).       (* "HS256", TINK id 0x01020304 *)
+  Let ro := mkRO (Some [74; 87; 84]) None (Some [[97]; [98]]) None (Some [105]) None
+                 None (Some 1700003600%Z) (Some 1700000000%Z) false (Some [([99], JBool true)]).
+  (* toy printer: the header prints as "H", the payload as "P" *)
+  Let json_print (f : fields) : bytes := if has s_alg f then [72] else [80].
+  Let hdr : fields := [(s_alg, JStr (kalg k)); (s_typ, JStr [74; 87; 84]); (s_kid, JStr (tink_kid 16909060))].
+  Let json_parse (b : bytes) : option fields :=
+    if beq b [72] then Some hdr
+    else match new_raw_jwt ro with Some r => Some (r_payload r) | None => None end.
+  Let sign (kr : N) (m : bytes) : bytes := kr :: m.
+  Let sig_valid (kr : N) (sg m : bytes) : bool := beq sg (kr :: m).
+  (* exp = now - skew + 1 s, nbf = now + skew: both boundaries at once *)
+  Let o := mkV (Some [74; 87; 84]) (Some [105]) (Some [98]) false false false false false
+               5000000000%Z 1699999995000000000%Z None.
+
+  Example C09_nonvacuous :
+    exists r tok v,
+      new_raw_jwt ro = Some r
+      /\ encode json_print sign k r = Some tok
+      /\ new_validator o = Some v /\ validate v r = true
+      /\ verify sig_valid json_parse [mkKey 1 false [72] KIgnored; k] o tok = Some (VOk r)
+      /\ verify sig_valid json_parse [mkKey 1 true [72; 83; 50; 53; 54] KIgnored] o tok = Some VGeneric
+      /\ verify sig_valid json_parse (jwk_roundtrip [k]) o tok = Some (VOk r).
+  Proof.
+    eexists. eexists. eexists.
+    split; [vm_compute; reflexivity|].
+    split; [vm_compute; reflexivity|].
+    split; [vm_compute; reflexivity|].
+    split; [vm_compute; reflexivity|].
+    split; [vm_compute; reflexivity|].
+    split; vm_compute; reflexivity.
+  Qed.
+End Example.
